@@ -84,10 +84,11 @@ def log(l):
 
 def step(st, ob):
     odd = bool(ob.get("unexpected")) or bool(ob.get("panic")) or ob["fresh_cert_err"] in ("panic", "harness") or ob["fresh_dns_err"] in ("panic", "harness")
-    return "(mkOstep %s %s %s %s %s %s %s %s %s %s %s %s %s %s %s %s %s)" % (
+    return "(mkOstep %s %s %s %s %s %s %s %s %s %s %s %s %s %s %s %s %s %s %s)" % (
         vs(st["vs"]), faults(st["cm_faults"]), faults(st["dns_faults"]),
         log(ob["cm"]["log"]), result(ob["cm"]["err"]), store(ob["cm"]["store"], cert),
         log(ob["dns"]["log"]), result(ob["dns"]["err"]), store(ob["dns"]["store"], dnsep),
+        C.cq_opt(ob["cm"].get("pre"), lambda l: store(l, cert)), C.cq_opt(ob["dns"].get("pre"), lambda l: store(l, dnsep)),
         C.cq_opt(ob["cm"].get("cache"), lambda l: store(l, cert)), C.cq_opt(ob["dns"].get("cache"), lambda l: store(l, dnsep)),
         B(bool(ob.get("cache_mutated"))), B(odd), C.cq_opt(ob["fresh_cert"], cert), result(ob["fresh_cert_err"]),
         C.cq_opt(ob["fresh_dns"], dnsep), result(ob["fresh_dns_err"]))
@@ -130,6 +131,18 @@ GC_BITS = [(1, "certificate", "feature-removed"), (2, "dnsendpoint", "feature-re
            (4, "certificate", "other-name"), (8, "dnsendpoint", "other-name")]
 
 
+def via(c):
+    """for messages: how the synchronizations of this history were triggered"""
+    if not c.get("delivery"):
+        return ""
+    parts = []
+    for i, (st, ob) in enumerate(zip(c["steps"], c["obs"]["steps"])):
+        d = ob.get("delivery") or {}
+        parts.append("%d:%s%s vs-event=%s enqueued=%s ran=%s" % (i, st["kind"], ("/" + st["tamper"]) if st.get("tamper") else "", d.get("vs_event"),
+                                                              d.get("enqueued"), [k for k, f in (("cert-manager", d.get("ran_cm")), ("externaldns", d.get("ran_dns"))) if f]))
+    return " [through the real event handlers / work queues / processItem: " + "; ".join(parts) + "]"
+
+
 def trigger(c, upto=None):
     """what the history did (for messages only)"""
     return ",".join(s["kind"] for s in c["steps"][:upto])
@@ -164,6 +177,16 @@ def judge(run, cases, res, probe):
         for st in c["steps"]:
             if st["kind"] == "retry":
                 run.cov["retries_after_failed_write"] = run.cov.get("retries_after_failed_write", 0) + 1
+        if c.get("delivery"):
+            dl = run.cov.setdefault("delivery_family", {"histories": 0, "virtualserver_events_offered": 0, "derived_object_events_handled": 0,
+                                                        "processItem_runs": 0, "foreign_deletes_or_edits_of_derived_objects": 0})
+            dl["histories"] += 1
+            for st, ob in zip(c["steps"], c["obs"]["steps"]):
+                d = ob.get("delivery") or {}
+                dl["virtualserver_events_offered"] += 1 if d.get("vs_event") in ("add", "update") else 0
+                dl["derived_object_events_handled"] += d.get("derived_evts", 0)
+                dl["processItem_runs"] += len(d.get("processed") or [])
+                dl["foreign_deletes_or_edits_of_derived_objects"] += 1 if (ob["cm"].get("pre") is not None or ob["dns"].get("pre") is not None) else 0
         if cbad >= 0:
             mut = c["obs"]["steps"][cbad].get("cache_mutated") or []
             run.failing({"kind": "cache-mutated", "resource": sorted(set(m.split(" ")[0] for m in mut))}, [c],
@@ -184,11 +207,11 @@ def judge(run, cases, res, probe):
         for bit, name in FRESH_BITS:
             if fc & bit:
                 run.failing({"kind": "stale-certificate", "field": name}, [c],
-                            "case %d: after a successful synchronization the Certificate differs from what a first-time synchronization creates in: %s"
-                            % (cid, name), theorem="Sync.Cases.s_fresh_cert")
+                            "case %d: after a successful synchronization the Certificate differs from what a first-time synchronization creates in: %s%s"
+                            % (cid, name, via(c)), theorem="Sync.Cases.s_fresh_cert")
         if fd:
             run.failing({"kind": "stale-dnsendpoint", "mask": fd}, [c],
-                        "case %d: after a successful synchronization the DNSEndpoint differs from what a first-time synchronization creates" % cid,
+                        "case %d: after a successful synchronization the DNSEndpoint differs from what a first-time synchronization creates%s" % (cid, via(c)),
                         theorem="Sync.Cases.s_fresh_dns")
         for bit, res_name, why in GC_BITS:
             if gc & bit:
@@ -212,6 +235,11 @@ TRUSTED = [
     "the object tracker of the fake clientset is the cluster; the indexers behind the real generated listers are the informer caches and hand the "
     "synchronization functions the very pointers they store; after every synchronization the harness delivers the watch event (fresh JSON-decoded "
     "object) of each object whose stored version changed and of nothing else, and deep-compares every cache object with a copy taken before the call",
+    "delivery family: the controllers are built by the production NewController (externaldns) / assembled like NewCmController with the production "
+    "addHandlers (certmanager); their informers are not started (the fake clientset cannot LIST DNSEndpoints), the harness feeds the informers' indexers "
+    "and calls handler values constructed by the hook files exactly as newNamespacedInformer / addHandlers construct the ones they register "
+    "(QueuingEventHandler{Queue}, BlockingEventHandler{externalDNSHandler / certificateHandler}); the registration calls themselves and the informer "
+    "machinery of client-go are not exercised; generation / resourceVersion bookkeeping of the API server is reproduced by the harness",
     "library verdicts used as oracles and passed to the model: time.ParseDuration, validation.IsValidIP, netutils.ParseIPSloppy; the cert-manager "
     "key-usage table is transcribed (23 names) and compared through the harness",
 ]
@@ -263,7 +291,9 @@ def check(run):
                        "DNSEndpoints with no owner, a foreign controller, a non-controller reference to the VirtualServer, or owned and drifted) and 3-8 "
                        "synchronizations of a VirtualServer that is edited in between (each cert-manager and ExternalDNS field, secret rename, host, labels, "
                        "external endpoints, feature removal, re-sync without edit, retry after a failed write, another VirtualServer / same name with a new uid), "
-                       "API faults popped per write; freshness / gc / idempotence are judged on the cluster object after every synchronization that returns nil.  A history is distinct by its full input and non-trivial when at least one write was issued.  Fixed witness histories of "
+                       "API faults popped per write; one history in eight (class delivery, plus three fixed ones) does not call the sync functions but offers every "
+                       "VirtualServer change (spec, labels, status.externalEndpoints, irrelevant status noise) and foreign deletes/edits of the derived objects to the real "
+                       "event handlers with the real work queues, drained through the real processItem; freshness / gc / idempotence are judged on the cluster object after every synchronization that returns nil.  A history is distinct by its full input and non-trivial when at least one write was issued.  Fixed witness histories of "
                        "the refutation theorems run first.")
     run.cov["trusted_base"] = TRUSTED
     run.assumptions += ["the lister reflects the cluster at the start of every synchronization (explicit hypothesis: C20_lister_reflects_cluster; established by the "
@@ -292,6 +322,10 @@ def replay(run, path):
                 print("         lister cache before the step differed from the cluster: certs=%s dns=%s" % (
                     json.dumps(ob["cm"].get("cache"))[:500], json.dumps(ob["dns"].get("cache"))[:500]))
             print("         stores: certs=%s dns=%s" % (json.dumps(ob["cm"]["store"])[:600], json.dumps(ob["dns"]["store"])[:400]))
+            if ob.get("delivery"):
+                d = ob["delivery"]
+                print("         delivery: tamper=%r vs-event=%s enqueued-by=%s derived-object-events=%d processItem=%s" % (
+                    st.get("tamper", ""), d["vs_event"], d["enqueued"], d["derived_evts"], d["processed"]))
         r = rows.get(c["id"])
         if r:
             print("  model: agrees=%d (first disagreeing step %d)  spec=%d foreign-bad-step=%d cache-mutating-step=%d idem-mask=%d fresh-cert-mask=%d fresh-dns-mask=%d gc-mask=%d"
